@@ -275,3 +275,26 @@ mem_h!(c25_fetch, {
     }
     core::mem::forget(vm);
 });
+
+// OwnershipRegisters::new: the heap bound comes from the *direct* caller's frame (frames.last());
+// call depth 0, 1, 2 (harness constants) with symbolic saved $hp values.
+fn ownership_from_frames(depth: usize) {
+    use crate::call::CallFrame;
+    use fuel_types::AssetId;
+    let i = super::c21_alu::any_in();
+    let (hp1, hp2): (Word, Word) = (kani::any(), kani::any());
+    let mut vm = mk_vm(i.regs, MemoryInstance::new(), GasCostsValuesV7::unit());
+    let mut s1 = [0u64; VM_REGISTER_COUNT]; s1[R_HP] = hp1;
+    let mut s2 = [0u64; VM_REGISTER_COUNT]; s2[R_HP] = hp2;
+    if depth >= 1 { vm.frames.push(CallFrame::new(ContractId::zeroed(), AssetId::zeroed(), s1, 0, 0, 0).unwrap()); }
+    if depth >= 2 { vm.frames.push(CallFrame::new(ContractId::zeroed(), AssetId::zeroed(), s2, 0, 0, 0).unwrap()); }
+    let o = vm.ownership_registers();
+    let want = if depth >= 2 { hp2 } else if depth == 1 { hp1 } else { VM_MAX_RAM };
+    assert!(o.prev_hp == want);
+    assert!(o.sp == i.regs[R_SP] && o.ssp == i.regs[R_SSP] && o.hp == i.regs[R_HP]);
+    kani::cover!(true, "ownership registers derived");
+    core::mem::forget(vm);
+}
+mem_h!(c24_ownership_registers_depth0, { ownership_from_frames(0) });
+mem_h!(c24_ownership_registers_depth1, { ownership_from_frames(1) });
+mem_h!(c24_ownership_registers_depth2, { ownership_from_frames(2) });
